@@ -85,32 +85,41 @@ def findSufs : Nat → List Char → List (List Char × List Char × List Char)
 
 def isHexLower (c : Char) : Bool := isDigit c || (97 ≤ c.toNat && c.toNat ≤ 102)
 
-/-- `parseAlpineSuffixes`: every match adds a suffix; it is trimmed only while it is a prefix -/
-def alpSufFold (ms : List (List Char × List Char × List Char)) (str : List Char) : Option (List Char × List ASuf) :=
-  ms.foldl (fun st m =>
-    match st with
+/-- one match of `parseAlpineSuffixes`: it adds a suffix and is trimmed only while it is a prefix;
+`none` = `convertToBigInt` failed -/
+def alpSufStep (st : Option (List Char × List ASuf)) (m : List Char × List Char × List Char) :
+    Option (List Char × List ASuf) :=
+  match st with
+  | none => none
+  | some (str, sufs) =>
+    match toBig (if m.2.2.isEmpty then ['0'] else m.2.2) with
     | none => none
-    | some (str, sufs) =>
-      match toBig (if m.2.2.isEmpty then ['0'] else m.2.2) with
-      | none => none
-      | some num => some (stripPrefix m.1 str, sufs ++ [⟨sufWeight m.2.1, num⟩])) (some (str, []))
+    | some num => some (stripPrefix m.1 str, sufs ++ [⟨sufWeight m.2.1, num⟩])
+
+/-- `parseAlpineSuffixes` -/
+def alpSufFold (ms : List (List Char × List Char × List Char)) (str : List Char) : Option (List Char × List ASuf) :=
+  ms.foldl alpSufStep (some (str, []))
+
+/-- `parseAlpineLetter`: `^[a-z]` -/
+def alpLetterOf : List Char → List Char
+  | c :: _ => if isLower c then [c] else []
+  | [] => []
+
+/-- `parseAlpineHash`: `^~([0-9a-f]+)` -/
+def alpHashOf : List Char → List Char
+  | '~' :: r =>
+    let h := r.takeWhile isHexLower
+    if h.isEmpty then [] else '~' :: h
+  | _ => []
 
 /-- `parseAlpineLetter` … `parseAlpineBuildComponent`: everything after the number components -/
 def parseAlpRest (s : List Char) (comps : List ANum) (str : List Char) : PRes AlpV :=
-  let letter : List Char :=
-    match str with
-    | c :: _ => if isLower c then [c] else []
-    | [] => []
+  let letter := alpLetterOf str
   let str := stripPrefix letter str
   match alpSufFold (findSufs (str.length + 1) str) str with
   | none => .err
   | some (str, sufs) =>
-    let hash : List Char :=
-      match str with
-      | '~' :: r =>
-        let h := r.takeWhile isHexLower
-        if h.isEmpty then [] else '~' :: h
-      | _ => []
+    let hash := alpHashOf str
     let str := stripPrefix hash str
     if str.isEmpty then .ok ⟨s, false, [], comps, letter, sufs, 0⟩
     else
@@ -171,7 +180,8 @@ def cmpALetters (a b : List Char) : Ordering :=
 def cmpASuf (a b : ASuf) : Ordering :=
   if a.w > b.w then .gt else if a.w < b.w then .lt else icmp a.n b.n
 
-def padASuf : ASuf := ⟨5, 0⟩
+/-- what `fetchSuffix` returns beyond the end: weight 4 = "no suffix" (after the repair of the padding weight, which was 5 = `cvs`) -/
+def padASuf : ASuf := ⟨4, 0⟩
 
 /-- `compareSuffixes` -/
 def cmpASufs (a b : List ASuf) : Ordering := cmpPad cmpASuf padASuf a b
